@@ -164,7 +164,7 @@ def run_case(ctx, name, params):
         bxs = gen.boxes(r, n, fam)
         precs = [None] * n
         if g in ("random", "gen_vector") and r.random() < 0.4:
-            precs = [r.choice([None, 1e-3, 0.01, 0.25, 1e-6]) for _ in range(n)]
+            precs = [r.choice([None, 1e-3, 0.01, 0.25, 1e-6, 0.5, 0.05, 0.4, 0.3, 5.0, 2.0]) for _ in range(n)]
         P = []
         for i, b in enumerate(bxs):
             q = {"name": "x%d" % i, "bounds": list(b)}
@@ -218,7 +218,7 @@ def run_case(ctx, name, params):
         bxs = setup["bounds"]
         precs = [None] * len(bxs)
         if r.random() < 0.3:
-            precs = [r.choice([None, 1e-3, 1e-6]) * 1 if False else r.choice([None, 1e-3, 1e-6]) for _ in bxs]
+            precs = [r.choice([None, 1e-3, 1e-6]) * 1 if False else r.choice([None, 1e-3, 1e-6, 0.5, 0.05, 0.4, 0.03]) for _ in bxs]
             precs = [pr if pr is None or pr < (ub - lb) / 50 else None for pr, (lb, ub) in zip(precs, bxs)]
         bad = []
 
